@@ -108,6 +108,10 @@ func genPoolMoney(r *rand.Rand, idx int, emit func(string)) {
 			g.update(pick(r, []string{"n0", "n1"}), "good", []string{"n6", "n7"}, 5*minute)
 		case k < 16:
 			w := pick(r, []string{"w0", "w0", "w1", "w2"})
+			if r.Intn(5) == 0 {
+				// the wallet spelled in lower case in a request signed over that spelling: another account to the ledger
+				w = pick(r, []string{"w0lc", "w0lc", "w1lc", "w2lc"})
+			}
 			during := ""
 			if r.Intn(3) == 0 {
 				// a host of some wallet earns while this wallet's settlement is in flight
@@ -366,6 +370,21 @@ func genPoolPeers(r *rand.Rand, idx int, emit func(string)) {
 		g.update("n7", "good", []string{"n0", "n" + strconv.Itoa(r.Intn(nh))}, 0)
 	}
 	g.dump()
+	if idx%5 == 3 {
+		// a host moves to a new connection and then back to the one it used before, which never closed: the pool
+		// instructs it over the connection it registered on last, and closing the other one changes nothing
+		h := r.Intn(nh)
+		hn, ip, kind := "n"+strconv.Itoa(h), "5.5.5."+strconv.Itoa(h), pick(r, kinds)
+		x, y := "c"+strconv.Itoa(nh+2+r.Intn(2)), "c"+strconv.Itoa(nh+4)
+		g.host(hn, x, ip, kind)
+		g.host(hn, y, ip, kind)
+		g.host(hn, x, ip, kind)
+		emit(fmt.Sprintf("peer n7 %s good num=%d kind=~ outcomes=", g.n(), nh+1))
+		emit("close " + pick(r, []string{y, y, x}))
+		g.dump()
+		emit(fmt.Sprintf("peer n6 %s good num=%d kind=~ outcomes=", g.n(), nh+1))
+		g.dump()
+	}
 	for i := 0; i < 6+r.Intn(12); i++ {
 		switch k := r.Intn(20); {
 		case k < 10:
@@ -381,10 +400,10 @@ func genPoolPeers(r *rand.Rand, idx int, emit func(string)) {
 				}
 			}
 			emit(fmt.Sprintf("peer %s %s good num=%d kind=%s outcomes=%s", pick(r, []string{"n7", "n7", "n6", "n0"}), g.n(),
-				[]int{-5, -1, 0, 1, 1, 2, 3, nh - 1, nh, nh + 3}[r.Intn(10)], Tok(pick(r, []string{"", "", "geth", "parity", "pantheon"})), strings.Join(outs, ",")))
+				[]int{-5, -1, 0, 1, 1, 2, 3, nh - 1, nh, nh + 3}[r.Intn(10)], Tok(pick(r, []string{"", "", "geth", "geth", "parity", "pantheon", "besu", "Geth", "geth-les", "unknown"})), strings.Join(outs, ",")))
 		case k < 11:
 			// legacy client request: no count means the documented default of three
-			emit(fmt.Sprintf("client ~ %s %s good %s num=%d outcomes=", pick(r, []string{"n7", "n6"}), g.n(), pick(r, []string{"geth", "parity", "~"}), []int{0, 0, -2, 1, 4}[r.Intn(5)]))
+			emit(fmt.Sprintf("client ~ %s %s good %s num=%d outcomes=", pick(r, []string{"n7", "n6"}), g.n(), pick(r, []string{"geth", "parity", "~", "~", "nethermind", "unknown"}), []int{0, 0, -2, 1, 4}[r.Intn(5)]))
 		case k < 13:
 			emit(fmt.Sprintf("close c%d", r.Intn(nh+1)))
 		case k < 16:
